@@ -29,6 +29,8 @@ def uf_rule(n: Node, k: int) -> Node:
     if kind == "P":
         p1, p2 = sorted([tuple(idx), kl])
         return _uf("A%s:%d" % (suffix, dim), p1 + p2, args)
+    if kind == "J":  # determinant: dJ/dF = Cof
+        return _uf("C%s:%d" % (suffix, dim), kl, args)
     if kind == "C":  # cofactor Cof_ij(F) = dJ/dF_ij ; its derivative is major-symmetric (d2J/dFdF)
         p1, p2 = sorted([tuple(idx), kl])
         return _uf("D%s:%d" % (suffix, dim), p1 + p2, args)
@@ -138,12 +140,14 @@ class AbstractAreaChange:
             from felupe.constitution import AreaChange
 
             self.real = AreaChange()
-            _register_eval(ctx, "CD", self._uf_eval)
+            _register_eval(ctx, "CDJ", self._uf_eval)
 
     def _uf_eval(self, name, idx, argvals):
         tag, _, dim = name.partition(":")
         d = int(dim or 3)
         F = np.array(argvals, dtype=float).reshape(d, d, 1, 1)
+        if tag[0] == "J":
+            return float(np.linalg.det(F[:, :, 0, 0]))
         if tag[0] == "C":
             return float(self.real.function([F])[0][idx[0], idx[1], 0, 0])
         return float(self.real.gradient([F])[0][idx[0], idx[1], idx[2], idx[3], 0, 0])
@@ -165,6 +169,18 @@ class AbstractAreaChange:
         if N is None:
             return [Fs]
         return [np.einsum("ij...,j...->i...", Fs, N)]
+
+    def det(self, F, out=None):
+        """abstract determinant J(F) with dJ/dF = Cof(F)"""
+        if not self.ctx.sym:
+            from felupe.math import det as _det
+
+            return _det(F, out=out)
+        J = np.empty(F.shape[2:], dtype=object)
+        for q in np.ndindex(*F.shape[2:]):
+            args, d = self._args(F, q)
+            J[q] = Sym(_uf("J:%d" % d, (), args))
+        return J
 
     def gradient(self, extract, N=None, parallel=None):
         if not self.ctx.sym:
